@@ -51,6 +51,8 @@ var shapes = []shape{
 	{Name: "shortest-path-terminal-filter", Position: "string-literal-in-harness-sql", Enc: "sq", Template: "MATCH p = shortestPath((n)-[*1..]->(m)) WHERE m.name = '{}' RETURN p"},
 	{Name: "shortest-path-both-filters", Position: "string-literal-in-harness-sql", Enc: "sq", Template: "MATCH p = shortestPath((n {name: '{}'})-[*1..]->(m {name: 'y'})) RETURN p"},
 	{Name: "all-shortest-paths-filter", Position: "string-literal-in-harness-sql", Enc: "sq", Template: "MATCH p = allShortestPaths((n:NodeKind1)-[:EdgeKind1*1..]->(m:NodeKind2)) WHERE n.name = '{}' AND m.name = 'y' RETURN p"},
+	{Name: "shortest-path-bound-root-terminal-filter", Position: "string-literal-in-harness-sql", Enc: "sq", Template: "MATCH (s:NodeKind1 {name: 'a'}) MATCH p = shortestPath((s)-[:EdgeKind1*1..]->(e)) WHERE e.name = '{}' RETURN p"},
+	{Name: "shortest-path-bound-root-filter", Position: "string-literal-in-harness-sql", Enc: "sq", Template: "MATCH (s:NodeKind1 {name: '{}'}) MATCH p = shortestPath((s)-[:EdgeKind1*1..]->(e:NodeKind2)) RETURN p"},
 	{Name: "shortest-path-edge-filter", Position: "string-literal-in-harness-sql", Enc: "sq", Template: "MATCH p = shortestPath((n)-[r*1..]->(m)) WHERE n.name = 'a' AND all(e IN relationships(p) WHERE e.name = '{}') RETURN p"},
 	// --- property keys / map keys
 	{Name: "property-key-where", Position: "property-key", Enc: "bt", Template: "MATCH (n) WHERE n.`{}` = 'a' RETURN n"},
@@ -74,6 +76,18 @@ var shapes = []shape{
 	{Name: "projection-alias-order-by", Position: "projection-alias", Enc: "bt", Template: "MATCH (n) RETURN n.name AS `{}` ORDER BY `{}`"},
 	{Name: "with-alias", Position: "with-alias", Enc: "bt", Template: "MATCH (n) WITH n AS `{}` RETURN `{}`"},
 	{Name: "unwind-alias", Position: "with-alias", Enc: "bt", Template: "UNWIND [1, 2] AS `{}` RETURN `{}`"},
+	{Name: "projection-alias-aggregate", Position: "projection-alias", Enc: "bt", Template: "MATCH (n) RETURN n.name AS `{}`, count(n) AS c ORDER BY c"},
+	{Name: "projection-alias-count-fast-path", Position: "projection-alias", Enc: "bt", Template: "MATCH (n:NodeKind1) RETURN count(n) AS `{}`"},
+	{Name: "with-alias-scalar", Position: "with-alias", Enc: "bt", Template: "MATCH (n) WITH n.name AS `{}` RETURN `{}`"},
+	{Name: "with-alias-collect", Position: "with-alias", Enc: "bt", Template: "MATCH (n) WITH collect(n) AS `{}` RETURN `{}`"},
+	{Name: "with-alias-where", Position: "with-alias", Enc: "bt", Template: "MATCH (n) WITH n, count(n) AS `{}` WHERE `{}` > 1 RETURN n"},
+	{Name: "with-alias-aggregate-traversal-count", Position: "with-alias", Enc: "bt", Template: "MATCH (n:NodeKind1) MATCH (n)-[:EdgeKind1*1..]->(c:NodeKind2) WITH DISTINCT n, count(c) AS `{}` RETURN n ORDER BY `{}` DESC LIMIT 5"},
+	{Name: "with-alias-then-match", Position: "with-alias", Enc: "bt", Template: "MATCH (n) WITH n AS `{}` MATCH (`{}`)-[:EdgeKind1]->(m) RETURN m"},
+	{Name: "relationship-variable-name", Position: "variable-name", Enc: "bt", Template: "MATCH (a)-[`{}`]->(b) RETURN `{}`"},
+	{Name: "expansion-variable-name", Position: "variable-name", Enc: "bt", Template: "MATCH (a)-[`{}`:EdgeKind1*1..]->(b) RETURN `{}`"},
+	{Name: "path-variable-name", Position: "variable-name", Enc: "bt", Template: "MATCH `{}` = (a)-[:EdgeKind1*1..]->(b) RETURN `{}`"},
+	{Name: "quantifier-variable-name", Position: "variable-name", Enc: "bt", Template: "MATCH (n) WHERE any(`{}` IN n.list WHERE `{}` = 'a') RETURN n"},
+	{Name: "variable-name-shortest-path", Position: "variable-name", Enc: "bt", Template: "MATCH p = shortestPath((`{}`)-[*1..]->(m)) WHERE `{}`.name = 'a' RETURN p"},
 	{Name: "parameter-name", Position: "parameter-name", Enc: "bt", Template: "MATCH (n) WHERE n.name = $`{}` RETURN n"},
 	// --- parameter values
 	{Name: "parameter-value-string", Position: "parameter-value", Param: "string", Template: "MATCH (n) WHERE n.name = $prm RETURN n"},
@@ -84,6 +98,9 @@ var shapes = []shape{
 	{Name: "parameter-map-key-create", Position: "parameter-value", Param: "map-key", Template: "CREATE (n:NodeKind1 $prm) RETURN n"},
 	{Name: "parameter-value-shortest-path", Position: "parameter-value-in-harness-sql", Param: "string", Template: "MATCH p = shortestPath((n)-[*1..]->(m)) WHERE n.name = $prm RETURN p"},
 	{Name: "parameter-value-shortest-path-terminal", Position: "parameter-value-in-harness-sql", Param: "string", Template: "MATCH p = shortestPath((n)-[*1..]->(m)) WHERE n.name = 'a' AND m.name = $prm RETURN p"},
+	{Name: "parameter-value-shortest-path-bound-root", Position: "parameter-value-in-harness-sql", Param: "string", Template: "MATCH (s:NodeKind1 {name: 'a'}) MATCH p = shortestPath((s)-[:EdgeKind1*1..]->(e)) WHERE e.name = $prm RETURN p"},
+	{Name: "parameter-value-shortest-path-bound-ends", Position: "parameter-value-in-harness-sql", Param: "string", Template: "MATCH (s:NodeKind1 {name: 'a'}), (e:NodeKind2 {name: $prm}) MATCH p = shortestPath((s)-[:EdgeKind1*1..]->(e)) RETURN p"},
+	{Name: "parameter-value-all-shortest-paths-bound-root", Position: "parameter-value-in-harness-sql", Param: "string", Template: "MATCH (s:NodeKind1 {name: $prm}) MATCH p = allShortestPaths((s)-[:EdgeKind1*1..]->(e:NodeKind2)) WHERE e.name = 'y' RETURN p"},
 	{Name: "parameter-list-shortest-path", Position: "parameter-value-in-harness-sql", Param: "list", Template: "MATCH p = allShortestPaths((n)-[*1..]->(m)) WHERE n.name IN $prm RETURN p"},
 }
 
